@@ -489,7 +489,13 @@ func (r *run) finalPipeline() map[string]interface{} {
 		}
 		time.Sleep(5 * time.Millisecond)
 	}
-	return map[string]interface{}{"em": r.emittedSince(), "rc": rc, "drained": true}
+	st := make([]int, len(r.names)) // status the node reports per member id (0 = not listed)
+	for _, m := range r.n.Serf.VerifDump().Members {
+		if i := r.id(m.Name); i < len(st) {
+			st[i] = m.Status
+		}
+	}
+	return map[string]interface{}{"em": r.emittedSince(), "rc": rc, "drained": true, "st": st}
 }
 
 func main() {
